@@ -323,14 +323,16 @@ def endpoint_classify(line, res):
 
 
 # ---------------- kind tls
-CERTS = ["valid", "wrongname", "unknownca", "expired", "selfsigned"]
+# sysroot*: issued by the CA of the process's SYSTEM trust store (which the harness controls through SSL_CERT_FILE /
+# SSL_CERT_DIR) and NOT by the configured ca: refused whenever a ca is configured, accepted by default
+CERTS = ["valid", "wrongname", "unknownca", "expired", "selfsigned", "sysroot", "sysrootwrongname"]
 
 
 def tls_gen(rng, tier):
     out = []
     n = 0
     for rep in range(budget(tier, 1, 4)):
-        for proto in ("tls", "https", "quic"):
+        for proto in ("tls", "https", "quic", "h3"):
             for ca in (0, 1):
                 for ins in (0, 1):
                     for peer in CERTS:
@@ -341,9 +343,11 @@ def tls_gen(rng, tier):
                             out.append("t%d role=up proto=%s ca=%d ck=%d ins=%d vc=%d peer=%s srvreq=%d"
                                        % (n, proto, ca, ck, ins, vc, peer, srvreq))
                             n += 1
+            if proto == "h3":
+                continue                # upstream-only helper scheme
             for vc in (0, 1):
                 for ca in (0, 1):
-                    for peer in CERTS + ["absent"]:
+                    for peer in CERTS[:6] + ["absent"]:
                         out.append("t%d role=ls proto=%s ca=%d ck=1 ins=%d vc=%d peer=%s srvreq=0"
                                    % (n, proto, ca, rng.randrange(2), vc, peer))
                         n += 1
@@ -358,15 +362,143 @@ def tls_oracle(line, res):
             return ("verify_client_cert listener (%s) served a client whose certificate is %s (configured ca: %s)"
                     % (f["proto"], f["peer"], f["ca"]))
         return None
-    if r.get("x") == "ok" and not (f["ins"] == "1" or (f["ca"] == "1" and f["peer"] == "valid")):
+    if r.get("x") == "ok" and not (f["ins"] == "1" or (f["ca"] == "1" and f["peer"] == "valid")
+                                   or (f["ca"] == "0" and f["peer"] == "sysroot")):
         return "%s upstream exchanged with a server whose certificate is %s (ca=%s, insecure_skip_verify=0)" % (
             f["proto"], f["peer"], f["ca"])
+    if r.get("start") == "ok" and r.get("x") == "fail" and f["ca"] == "0" and f["ins"] == "0" and f["peer"] == "sysroot" \
+            and (f["srvreq"] == "0" or f["ck"] == "1"):
+        return ("%s upstream without a configured ca refused a server whose certificate chains to a system root "
+                "(system roots are the default)" % f["proto"])
     return None
 
 
 def tls_classify(line, res):
     f = gens.fields(line)
     return "%s/%s/%s" % (f["role"], f["proto"], f["peer"])
+
+
+# ---------------- kind sockets: EVERY socket an upstream opens goes to the configured target
+STRAY = "61235"         # stands for "the stray server's port" (the server listening where the URL host points)
+
+
+def sockets_gen(rng, tier):
+    out = []
+    n = [0]
+    priv_budget = [budget(tier, 8, 40)]
+
+    def nets(base):
+        return ["udp", "tcp"] if base == "udp" else (["udp"] if base in ("quic", "h3") else ["tcp"])
+
+    def add(st, base, http, auth, da, main, mport, stray, target, cls):
+        path = "/dns-query" if http else ""
+        url = (st + "://" if st is not None else "") + auth + path
+        exp = ",".join(sorted("%s/%s" % (nw, target) for nw in nets(base)))
+        out.append("s%d url=%s da=%s sch=%s main=%s mport=%s stray=%s exp=%s cls=%s"
+                   % (n[0], hs(url), hs(da or ""), base, main, mport, stray or "-", exp, cls))
+        n[0] += 1
+
+    for rep_ in range(budget(tier, 2, 10)):
+        for (st, base, dport, stream, tls, http) in SCHEMES:
+            # (a) no dial_addr: everything goes to the URL host and port
+            for (text, ip) in [("127.0.0.1", "127.0.0.1"), rng.choice([("127.0.0.2", "127.0.0.2"), ("127.0.0.3", "127.0.0.3")]),
+                               ("[" + rng.choice(LOOP6) + "]", "::1")][:budget(tier, 2, 3) if rep_ else 3]:
+                add(st, base, http, text + ":" + PORT, None, ip, "eph", None, join(ip, PORT), "plain")
+            # (b) dial_addr host:port differing from the URL host[:port]; a stray server listens at the URL host
+            urls = [("127.0.0.2:" + STRAY, "127.0.0.2"), ("[::1]:" + STRAY, "::1"), ("127.0.0.2", None),
+                    ("dns.example", None), ("dns.example:" + STRAY, None), ("[2001:db8::1]:" + STRAY, None),
+                    ("127.0.0.1:" + STRAY, "127.0.0.1")]
+            das = [("127.0.0.1:" + PORT, "127.0.0.1"), ("[::1]:" + PORT, "::1"), ("127.0.0.3:" + PORT, "127.0.0.3"),
+                   ("[" + rng.choice(LOOP6) + "]:" + PORT, "::1")]
+            for (auth, stray) in rng.sample(urls, budget(tier, 3, 5)):
+                da, main = rng.choice(das)
+                add(st, base, http, auth, da, main, "eph", stray, join(main, PORT), "da")
+            # (c) default ports (need the privileged port on a private loopback address; budgeted)
+            if priv_budget[0] > 0 and rng.random() < 0.5:
+                priv_budget[0] -= 1
+                if rng.random() < 0.5:
+                    add(st, base, http, "127.0.0.2:" + STRAY, "127.0.0.17", "127.0.0.17", "priv", "127.0.0.2",
+                        join("127.0.0.17", dport), "da-noport")
+                else:
+                    add(st, base, http, "127.0.0.18", None, "127.0.0.18", "priv", None, join("127.0.0.18", dport), "noport")
+    return out
+
+
+def sockets_parse(s):
+    if not s or s == "-":
+        return set()
+    out = set()
+    for x in s.split(","):
+        nw, _, a = x.partition("/")
+        out.add((nw, canon_hostport(a)))
+    return out
+
+
+def sockets_canon(res):
+    r = gens.fields(res)
+    if "socks" in r:
+        r["socks"] = tuple(sorted(sockets_parse(r["socks"])))
+    return sorted(r.items())
+
+
+def sockets_compare(ir, mr):
+    return sockets_canon(ir) == sockets_canon(mr)
+
+
+def sockets_oracle(line, res):
+    f = gens.fields(line)
+    r = gens.fields(res)
+    if r.get("new") != "ok":
+        return "a supported address form was refused"
+    got = sockets_parse(r.get("socks", "-"))
+    exp = sockets_parse(f["exp"])
+    target = sorted(exp)[0][1]
+    for (nw, a) in sorted(got - exp):
+        return "a %s socket was opened to %s; every socket of this upstream must go to the configured target %s" % (nw, a, target)
+    if r.get("stray", "0") != "0":
+        return "%s connection(s)/quer(ies) reached the server at the URL host although dial_addr sends everything to %s" % (
+            r["stray"], target)
+    for (nw, a) in sorted(exp - got):
+        return "the upstream never opened its %s socket to the configured target %s" % (nw, a)
+    return None
+
+
+def sockets_classify(line, res):
+    f = gens.fields(line)
+    return "%s/%s" % (f.get("sch"), f.get("cls"))
+
+
+# ---------------- kind tlscfg: makeTlsConfig field by field
+def tlscfg_gen(rng, tier):
+    out = []
+    n = 0
+    for ca in (0, 1):
+        for ck in (0, 1):
+            for ins in (0, 1):
+                for vc in (0, 1):
+                    for rc in (0, 1):
+                        out.append("c%d ca=%d ck=%d ins=%d vc=%d rc=%d" % (n, ca, ck, ins, vc, rc))
+                        n += 1
+    return out
+
+
+def tlscfg_oracle(line, res):
+    f = gens.fields(line)
+    r = gens.fields(res)
+    if r.get("cfg") != "ok":
+        return None
+    want = "configured" if f["ca"] == "1" else "system"
+    if r.get("roots") != want:
+        return "RootCAs is %s, configured: %s (a configured ca replaces the system roots; none means system roots)" % (
+            r.get("roots"), want)
+    if f["vc"] == "1" and (r.get("cas") != "configured" or r.get("auth") != "requireandverify"):
+        return "verify_client_cert: ClientCAs=%s ClientAuth=%s, expected the configured ca alone / requireandverify" % (
+            r.get("cas"), r.get("auth"))
+    if f["vc"] == "0" and r.get("auth") != "none":
+        return "client certificates demanded (%s) without verify_client_cert" % r.get("auth")
+    if r.get("ins") != f["ins"]:
+        return "InsecureSkipVerify=%s, configured %s" % (r.get("ins"), f["ins"])
+    return None
 
 
 PROPS["C17"] = dict(
@@ -377,6 +509,11 @@ PROPS["C17"] = dict(
              nontrivial=lambda l, r: True, timeout=900),
         dict(name="tls", gen=tls_gen, oracle=tls_oracle, classify=tls_classify,
              nontrivial=lambda l, r: True, timeout=900),
+        dict(name="sockets", gen=sockets_gen, oracle=sockets_oracle, classify=sockets_classify, compare=sockets_compare,
+             nontrivial=lambda l, r: True, timeout=900),
+        dict(name="tlscfg", gen=tlscfg_gen, oracle=tlscfg_oracle,
+             classify=lambda l, r: "ca%s/vc%s" % (gens.fields(l)["ca"], gens.fields(l)["vc"]),
+             nontrivial=lambda l, r: True, timeout=300),
     ],
     rule="addr: every helper of internal/upstream/utils.go on grammar strings (IPv4 / domain / IPv6 of 20 catalogue "
          "shapes + random shapes, with and without port, x default port, x dial_addr forms incl. '@name'), the "
@@ -384,10 +521,19 @@ PROPS["C17"] = dict(
          "trySplitHostPort, and random strings; endpoint: real upstream.NewUpstream for 13 scheme spellings x 7 "
          "hosts x port presence x 4 dial_addr forms against loopback fake servers of the scheme's own protocol "
          "(dial captured in the socket Control callback, SNI/Host at the server, certificate for the URL host or "
-         "for another name); tls: real router in-process, upstream {tls,https,quic} x ca x insecure_skip_verify x "
-         "5 server certificate kinds x client cert/server demand, and listener {tls,https,quic} x "
-         "verify_client_cert x ca x 6 client certificate kinds; distinct = distinct case line, all non-trivial",
-    assumptions=["loopback (127.0.0.1 and ::1) networking, abstract unix sockets; 'localhost' resolves to loopback",
+         "for another name); tls: real router in-process, upstream {tls,https,quic,h3} x ca x insecure_skip_verify x "
+         "7 server certificate kinds x client cert/server demand, and listener {tls,https,quic} x "
+         "verify_client_cert x ca x 7 client certificate kinds (both roles incl. certificates chaining to the "
+         "harness-controlled SYSTEM trust store but not to the configured ca); sockets: real upstream.NewUpstream "
+         "for 13 scheme spellings x {no dial_addr, dial_addr != URL host, default ports} driven until every socket "
+         "kind is open (TC=1 udp replies, one query per connection), the SET of (network, address) of all sockets "
+         "(Control callback / arrival at the fake servers) against ep_sockets, a stray server at the URL host must "
+         "stay untouched; tlscfg: real makeTlsConfig field by field for all 32 option combinations (pools compared "
+         "as sets); distinct = distinct case line, all non-trivial",
+    assumptions=["the process's system trust store is the harness' own (SSL_CERT_FILE / SSL_CERT_DIR set by build/implrun "
+                 "before crypto/x509 first loads it; verified at start-up, a failure is a harness error, not an alarm)",
+                 "every address of 127.0.0.0/8 is local (127.0.0.2, .3, .17, .18 are used as distinct peers)",
+                 "loopback (127.0.0.1 and ::1) networking, abstract unix sockets; 'localhost' resolves to loopback",
                  "x509 chain building / name matching / validity are oracles of the model (crypto/x509 is trusted)",
                  "for https/h3 the SNI and Host are derived by net/http and quic-go from the URL (trusted "
                  "libraries); the model uses the same derivation as for tls/quic and the endpoint kind checks it",
